@@ -69,6 +69,12 @@ func C13(r *core.Run) int {
 		[]byte("openapi: \"3.0.3\"\ninfo:\n  title: \"a `b` c\"\n  version: '1'\npaths: {}\n"),
 		[]byte("openapi: \"3.0.3\"\r\ninfo:\r\n  title: t\r\n  version: '1'\r\npaths: {}"),
 		[]byte("{\"openapi\":\"3.0.3\",\"info\":{\"title\":\"100% \\\\ back\",\"version\":\"1\"},\"paths\":{}}"))
+	// lines made of blanks only, trailing blanks, blank lines at both ends
+	contents = append(contents,
+		[]byte("openapi: \"3.0.3\"\ninfo:\n  title: t\n  description: |\n    first\n    \n    third\n  version: '1'\npaths: {}\n"),
+		[]byte("openapi: \"3.0.3\"\n \n\t\n  \t \ninfo: {title: t, version: '1'}\npaths: {}\n"),
+		[]byte("\n\n  \nopenapi: \"3.0.3\"\ninfo: {title: t, version: '1'}   \npaths: {}\t\n\n \n"),
+		[]byte("{\n  \n\t\"openapi\": \"3.0.3\",\n    \n\"info\": {\"title\": \"t\", \"version\": \"1\"}, \"paths\": {}\n}\n"))
 	// long files: whatever the generator does to long literals (wrapping,
 	// chunking, switching strategy) must not depend on where a rune or an
 	// escape sequence happens to fall; the fillers are dense in runes that
